@@ -22,7 +22,8 @@ def parseVar (n : Bytes) : Option Var :=
   let u := upper n
   [Var.argsGet, .argsPost, .argsPath, .args, .argsNames, .argsGetNames, .argsPostNames, .reqHeaders,
    .reqHeadersNames, .tx, .matchedVar, .matchedVarName, .matchedVars, .matchedVarsNames, .argsCombinedSize,
-   .reqUriRaw, .reqUri, .reqFilename, .reqBasename, .queryString, .reqMethod, .reqLine, .reqProtocol].find? (fun v => v.name == u)
+   .reqUriRaw, .reqUri, .reqFilename, .reqBasename, .queryString, .reqMethod, .reqLine, .reqProtocol,
+   .reqCookies, .reqCookiesNames, .respHeaders, .respHeadersNames].find? (fun v => v.name == u)
 
 /-- state machine of macro.compile: `cur` is the current token in reverse, `inMacro` the flag,
     `prev` the previous input byte (for the `input[i-1] == '.'` test), `skip` = the `i++` that
